@@ -1,4 +1,5 @@
 import PdshVerif.Pcp.Confine
+import PdshVerif.Pcp.Frame
 import PdshVerif.Pcp.Variant
 import PdshVerif.Pcp.Feed
 import PdshVerif.Pcp.Spec
@@ -27,9 +28,15 @@ initial file system and every option setting.
 * `truncated_answered`   -- a stream that ends inside a record, inside file data or before the
                            response byte is answered with an error record.
 
-Not proved here: that nothing *outside the listed paths* changes (frame property; exercised by the
-correspondence, which compares the whole jail), memory safety of the compiled C beyond the three
-buffers (ASan/UBSan on the harness side).
+* `frame`, `frame_soft`  -- every variant: a path that was not handed to a successful modifying call and is
+                           not the parent of a created path is unchanged; parents of created paths change
+                           at most in their directory mtime; nothing that existed disappears.
+* `only_beneath_dest`, `outside_dest_soft`
+                         -- C12 as ONE statement about the final file system (receiver with a name rule):
+                           every path not beneath the destination holds exactly what it held before.
+
+Not proved here: memory safety of the compiled C beyond the three buffers (ASan/UBSan on the harness
+side).
 -/
 namespace PdshVerif.Props.C12
 open PdshVerif.Pcp
@@ -115,6 +122,64 @@ theorem confined_partial (o : Opts) (hrep : o.rule ≠ .none) (fs : FS) (stream 
 example : badNameReply ∉ (sink (wopts .slashDotdot) wfs wstream3).2.1 ∧
     (sink (wopts .slashDotdot).unchanged wfs wstream3).2.2 = [[[119], [100], [101]]] := by
   refine ⟨by decide +kernel, by decide +kernel⟩
+
+/-! ## the frame: nothing else changes -/
+
+/-- **Frame.**  For every receiver variant, stream, file system and option setting: a path that was
+not handed to a successful modifying system call and is not the parent directory of a path that was
+created still holds exactly what it held before. -/
+theorem frame (o : Opts) (fs : FS) (stream : Str) (q : Path)
+    (hq : q ∉ (sink o fs stream).2.2)
+    (hpar : ∀ p ∈ (sink o fs stream).2.2, fs p = none → p.dropLast ≠ q) :
+    (sink o fs stream).1 q = fs q := by
+  simp only [sink, List.mem_reverse] at hq hpar ⊢
+  apply (framed_run o fs stream).frame
+  rintro (h | ⟨p, hp, h1, h2⟩)
+  · exact hq h
+  · exact hpar p hp h1 h2
+
+/-- the parent directory of a created path changes at most in its modification time, and **nothing
+that existed disappears** -/
+theorem frame_soft (o : Opts) (fs : FS) (stream : Str) (q : Path) :
+    (q ∉ (sink o fs stream).2.2 → SoftEq (fs q) ((sink o fs stream).1 q)) ∧
+    ((fs q).isSome = true → ((sink o fs stream).1 q).isSome = true) := by
+  simp only [sink, List.mem_reverse]
+  exact ⟨(framed_run o fs stream).soft q, (framed_run o fs stream).keeps q⟩
+
+/-- **C12 as one statement about the final file system** (receiver with a name rule: the repaired
+code).  Whatever the stream, every path that does not lie beneath the destination holds after the run
+exactly what it held before -- provided the destination exists at the start, or the path is not the
+destination's parent directory (creating the destination itself refreshes that directory's
+modification time, see `outside_dest_soft`). -/
+theorem only_beneath_dest (o : Opts) (hrule : o.rule ≠ .none) (fs : FS) (stream : Str) (p : Path)
+    (hp : ¬ destPath o <+: p) (hd : fs (destPath o) ≠ none ∨ p ≠ (destPath o).dropLast) :
+    (sink o fs stream).1 p = fs p := by
+  have hc := confined o hrule fs stream
+  apply frame
+  · intro hm; exact hp (hc p hm)
+  · intro p' hp' hnone e
+    rcases prefix_or_dropLast (hc p' hp') with rfl | hpre
+    · rcases hd with h | h
+      · exact h hnone
+      · exact h e.symm
+    · rw [e] at hpre; exact hp hpre
+
+/-- without that proviso: outside the destination nothing is created, removed or modified except
+that a directory may get a new modification time (only the destination's parent, only when the
+destination itself had to be created) -/
+theorem outside_dest_soft (o : Opts) (hrule : o.rule ≠ .none) (fs : FS) (stream : Str) (p : Path)
+    (hp : ¬ destPath o <+: p) : SoftEq (fs p) ((sink o fs stream).1 p) := by
+  apply (frame_soft o fs stream p).1
+  intro hm
+  exact hp (confined o hrule fs stream p hm)
+
+/-- the proviso of `only_beneath_dest` is satisfiable and the statement not vacuous: in the witness
+file system the neighbour `/w/v` survives the hostile stream `C0600 0 ../v` -/
+example : wfs (destPath (wopts .slashDotdot)) ≠ none ∧
+    (sink (wopts .slashDotdot) wfs wstream2).1 [[119], [118]] = wfs [[119], [118]] := by
+  refine ⟨by decide +kernel, ?_⟩
+  exact only_beneath_dest (wopts .slashDotdot) (by decide) wfs wstream2 _ (by decide +kernel)
+    (Or.inl (by decide +kernel))
 
 /-! ## buffers, termination -/
 
